@@ -26,7 +26,9 @@ PID = "C01"
 RULE = ("one evaluation = one variant replay compared with the reference replay of the same scenario; non-trivial = the "
         "scenario touched >= 2 nodes, retrieved >= 1 episode and wrote a snapshot in at least one turn")
 CANON = ("t1.jsonl", "t2.jsonl", "t4.jsonl", "apply.jsonl", "turn.jsonl", "health.jsonl", "scheduler.jsonl")
-DIAG_T1 = {"$.cache_hits", "$.cache_misses", "$.cache_used", "$.max_delta", "$.t1.cache_evictions", "$.t1.cache_bytes"}
+# cache diagnostics: hit/miss counters and the gauges that are only measured on a fresh computation
+DIAG_T1 = {"$.cache_hits", "$.cache_misses", "$.cache_used", "$.max_delta", "$.t1.cache_evictions", "$.t1.cache_bytes",
+           "$.t1_frontier_evicted", "$.t1_dedup_hits", "$.t1_visited_evicted"}
 DIAG_T2 = {"$.cache_hits", "$.cache_misses", "$.cache_used", "$.t2.cache_evictions", "$.t2.cache_bytes"}
 
 
@@ -124,10 +126,10 @@ def check_scenario(sc, sess: Session, rng, tier):
         diffs = diff_bundles(base, vb)
         paths = diff_paths(base, vb)
         mech = f"{name}:differs"
-        if name == "warm":
+        if name in ("warm", "jitter"):
             only_diag = all((p.startswith("t1.jsonl:") and p.split(":", 1)[1] in DIAG_T1) or (p.startswith("t2.jsonl:") and p.split(":", 1)[1] in DIAG_T2) for p in paths)
             if only_diag and paths:
-                mech = "warm:stage-cache-diagnostics-in-canonical-logs"
+                mech = f"{name}:stage-cache-diagnostics-in-canonical-logs"
         if name == "now-unset":
             mech = "now-unset:retrieval-follows-wall-clock-date"
         sess.violation(mech, case, {"paths": paths[:8], "diffs": diffs[:4]})
